@@ -327,6 +327,19 @@ META8 = {
 }
 
 
+META9 = {
+    "C05": dict(file="bioscrape/simulator.pyx (py_simulate_model moves the interface's initial time to the first requested time point)", needs="stochastic run on a grid that does not start at 0", caught_by=["C05"],
+                first_run="missed: every grid started at the initial time", strengthened="the entry point's grid starts at an arbitrary offset; the simulation clock stays at the interface's initial time (C05, C07); replay over 20 seeds on a late grid"),
+    "C06": dict(file="bioscrape/simulator.pyx (DelaySSASimulator applies the delayed stoichiometry once per due slot)", needs="two firings of one reaction due in the same slot", caught_by=["C06"], first_run="caught (the same place as r7/C10)"),
+    "C08": dict(file="bioscrape/simulator.pyx (SSASimulator: `c_stoich += delayed` on the model's own array)", needs="a delay model run in the plain stochastic simulator, then again", caught_by=["C08"], first_run="caught"),
+    "C11": dict(file="bioscrape/types.pyx (PositiveProportionalHillPropensity divides the proportional species by the volume as well)", needs="proportionalhillpositive, a volume mode, V != 1", caught_by=["C11"], first_run="caught"),
+    "C15": dict(file="bioscrape/inference.pyx (ModelLikelihood.get_initial_params treats an empty per-trajectory condition as no conditions)", needs="a list of parameter conditions with an empty entry after a non-empty one", caught_by=["C15"],
+                first_run="missed: the list cases had two trajectories, none of them empty", strengthened="three trajectories whose third condition is empty"),
+    "C17": dict(file="lineage/lineage.pyx (LineageVolumeCellState.__reduce__ passes dead and divided swapped)", needs="a cell state with divided != dead", caught_by=["C17"],
+                first_run="counterexample found, replay compared fields with getters only: exit 2", strengthened="replay compares the divided / dead flags from the state tuple"),
+}
+
+
 def main():
     results = {}
     rp = "/verif/seeded/results.json"
@@ -347,6 +360,8 @@ def main():
         rounds.append((META7, "/tmp/seed7_out", os.path.join(DST, "r7"), ("patch.diff", "demo.py", "notes.md")))
     if os.path.isdir("/tmp/seed8_out") or os.path.isdir(os.path.join(DST, "r8")):
         rounds.append((META8, "/tmp/seed8_out", os.path.join(DST, "r8"), ("patch.diff", "demo.py", "notes.md")))
+    if os.path.isdir("/tmp/seed9_out") or os.path.isdir(os.path.join(DST, "r9")):
+        rounds.append((META9, "/tmp/seed9_out", os.path.join(DST, "r9"), ("patch.diff", "demo.py", "notes.md")))
     for table, src_root, dst_root, files in rounds:
       for pid, m in sorted(table.items()):
         src = os.path.join(src_root, pid)
@@ -355,7 +370,7 @@ def main():
         for fn in files:
             if os.path.exists(os.path.join(src, fn)):
                 shutil.copy(os.path.join(src, fn), os.path.join(dst, fn))
-        key = pid if table is META else ("r2/" if table is META2 else "r3/" if table is META3 else "r4/" if table is META4 else "r5/" if table is META5 else "r6/" if table is META6 else "r7/" if table is META7 else "r8/") + pid
+        key = pid if table is META else ("r2/" if table is META2 else "r3/" if table is META3 else "r4/" if table is META4 else "r5/" if table is META5 else "r6/" if table is META6 else "r7/" if table is META7 else "r8/" if table is META8 else "r9/") + pid
         meta = dict(property=pid, changed=m["file"], needs_to_manifest=m["needs"], reported_by_checks=m["caught_by"],
                     first_run=m["first_run"], strengthened=m.get("strengthened", ""),
                     confirmed=["tools/try_seed.sh: (1) `git diff` of the sub-agent's worktree equals patch.diff; (2) the pinned suite run in that worktree: 54 passed; "
